@@ -21,12 +21,16 @@ SRC_SPEC = ("crc.go:*;encoding.go:*;modbus.go:mapExceptionCodeToError,mapErrorTo
             "tcp_transport.go:tcpTransport.readMBAPFrame,tcpTransport.readResponse,tcpTransport.ReadRequest,"
             "tcpTransport.WriteResponse,tcpTransport.ExecuteRequest,tcpTransport.Close;"
             "rtu_transport.go:rtuTransport.Close,rtuTransport.ExecuteRequest,rtuTransport.ReadRequest,"
-            "rtuTransport.WriteResponse,rtuTransport.readRTUFrame,discard")
+            "rtuTransport.WriteResponse,rtuTransport.readRTUFrame,discard;"
+            "udp.go:udpSockWrapper.Read,udpSockWrapper.Write,udpSockWrapper.Close,udpSockWrapper.SetDeadline;"
+            "tls_utils.go:tlsSockWrapper.Read,tlsSockWrapper.Write,tlsSockWrapper.Close,tlsSockWrapper.SetDeadline")
 # the transport layer: sockets, serial links and the clock are external
 SRC_TRANSPORT = ("tcpTransport.readMBAPFrame,tcpTransport.readResponse,tcpTransport.ReadRequest,"
                  "tcpTransport.WriteResponse,tcpTransport.ExecuteRequest,tcpTransport.Close,"
                  "rtuTransport.Close,rtuTransport.ExecuteRequest,rtuTransport.ReadRequest,"
-                 "rtuTransport.WriteResponse,rtuTransport.readRTUFrame,discard")
+                 "rtuTransport.WriteResponse,rtuTransport.readRTUFrame,discard,"
+                 "udpSockWrapper.Read,udpSockWrapper.Write,udpSockWrapper.Close,udpSockWrapper.SetDeadline,"
+                 "tlsSockWrapper.Read,tlsSockWrapper.Write,tlsSockWrapper.Close,tlsSockWrapper.SetDeadline")
 # functions whose external calls (transport, user handler, socket, clock) thread a state-of-the-world value
 SRC_WORLD = "ModbusServer.handleTransport," + SRC_TRANSPORT
 # functions translated in signed mode (int / time.Duration as two's-complement patterns, instants as numbers)
